@@ -21,7 +21,8 @@ RULE = ("group-free related pairs (all protocols, contiguous and non-contiguous 
         "skip options; ACLs of 2..12 such entries with duplicates and interleaved remarks, compared with the first-top "
         "attribution model. judged = exact-mode monitor evaluations + reports; distinct non-trivial as in C03 plus "
         "(acl size, #report keys, #reported)"
-        " Round 5: wide-wide pairs (two 9..10-bit non-contiguous wildcards); long ACLs of 130..180 entries incl. one of private pairs.")
+        " Round 5: wide-wide pairs (two 9..10-bit non-contiguous wildcards); long ACLs of 130..180 entries incl. one of private pairs."
+        " Rounds 6-7: mixed kinds (standard entry on one side).")
 ASSUMPTIONS = ["ports live in 1..65535; a bottom without a port expression under a top expression covering 1..65535 is "
                "not judged (whether port 0 exists is outside the model)",
                "duplicates share their line text and the API reports text: attribution is judged by text"]
